@@ -12,6 +12,7 @@ import Juniper.Driver.C18
 import Juniper.Driver.C17
 import Juniper.Driver.C20
 import Juniper.Driver.Tree
+import Juniper.Driver.C07
 /-! `driver <model>`: runs one executable model behind the line protocol. Core-only (no Mathlib).
 Registration: one `import` line above and one `[("name", handler)],` line below per model
 (this file is merged with git's union driver, so keep one entry per line). -/
@@ -31,6 +32,7 @@ def handlers : List (String × Handler) := List.flatten [
   [("group", Juniper.Driver.C17.handler)],
   [("xtime", Juniper.Driver.C20.handler)],
   [("tree", Juniper.Driver.Tree.handler)],
+  [("comb", Juniper.Driver.C07.handler)],
   []]
 
 def main (args : List String) : IO UInt32 := do
